@@ -32,6 +32,8 @@ CLAIMED = {
          'Decides that close() really closes (all 21 overload pairs agree), that close/destructor/re-open release binding and forwarder on every path, that move re-points and neutralises the source, that the TCP and UDP registries have disjoint closed user sets, that erase/re-point need found && owner, that look-ups are checked against end(), and that no error path reaches the insert. Registry contents over histories and the ephemeral-port scan are not decided.', '4/C11'),
  'C12': ('static: escape analysis of raw endpoint pointers into long-lived holders (packet callbacks, posted/timer closures, forwarder), guard-dominance on every m_channel dereference with interprocedural caller check, field-coverage of move constructors, path rules on the catch-all and timer removal',
          'Decides that each protection mechanism is applied wherever it is needed: the drop callback reaches its socket only through the resettable forwarder, which close/destructor detach and move re-points; timer completions return on abort before touching members; every m_channel dereference is guarded, in a guarded helper, or tabled with its invariant; move constructors transfer every field; the catch-all works from copies; timer removal searches the whole equal-expiry range. Absence of all UB on all schedules is not decided.', '4/C12'),
+ 'C13': ('static: effect-set computation of nat::incoming_packet over everything reachable from the packet, exact guard-set check on the visible-endpoint rewrite, exactly-once path rule, writer tables of the endpoint views',
+         'Decides that the NAT writes exactly from.address and visible_ep[0].address (with the address fixed at construction), that the latter happens for exactly the initiator\'s SYN, that every path forwards once, and that the user-visible endpoint views read the fields the NAT writes while the true endpoints have no writer. Run-time payload/ordering/timing are decided only as "no writer exists".', '4/C13'),
 }
 
 NOT_YET = {}
